@@ -705,6 +705,14 @@ func raceIDFor(prop string, v *Vector) string {
 	if prop == "C13" {
 		return "C13.race-free"
 	}
+	if strings.Contains(v.Entry, "GoroutineSchedules") {
+		// goroutines started by the code under test: the native scheduler rarely
+		// produces the schedule the executor found, so the vector is replayed
+		// many times under the race detector; a data race between those
+		// goroutines is the native witness that the result depends on the
+		// schedule, and confirms the candidate obligation
+		return v.Expect
+	}
 	if strings.Contains(v.Entry, "Concurrent") || strings.Contains(v.Entry, "Interleaved") {
 		if strings.HasSuffix(v.Expect, "race-free") {
 			return v.Expect
